@@ -64,6 +64,15 @@ func checkC19(c *Ctx, e *Env) {
 		return
 	}
 	fns := pkgFuncs(p.SSA, sp)
+	// hand-written packages below types/math (an internal helper package the arithmetic was moved into)
+	// are part of the subject
+	for _, pk := range p.RepoList {
+		if strings.HasPrefix(pk.PkgPath, sp.Pkg.Path()+"/") && excludedPkg(pk.PkgPath) == "" {
+			if sub := p.ssaPkgs[pk.Types]; sub != nil {
+				fns = append(fns, pkgFuncs(p.SSA, sub)...)
+			}
+		}
+	}
 	sort.Slice(fns, func(i, j int) bool { return fns[i].String() < fns[j].String() })
 	byName := map[string]*ssa.Function{}
 	nM1 := 0
@@ -853,39 +862,8 @@ func ruleFixed(c *Ctx, p *Program, byName map[string]*ssa.Function, fnName, via 
 		return
 	}
 	c.Check(callsFn(fn, via), "C19.M4", fnName+"#parses-via:"+via, p.Pos(fn.Pos()), fnName+" obtains its value from "+via)
-	ok := false
 	pos := p.Pos(fn.Pos())
-	for _, b := range fn.Blocks {
-		for _, in := range b.Instrs {
-			bo, isBin := in.(*ssa.BinOp)
-			if !isBin {
-				continue
-			}
-			// NumDecimalPlaces() > maxNum  (or maxNum < NumDecimalPlaces())
-			var call ssa.Value
-			var other ssa.Value
-			op := bo.Op
-			if isCallTo(bo.X, "Dec.NumDecimalPlaces") {
-				call, other = bo.X, bo.Y
-			} else if isCallTo(bo.Y, "Dec.NumDecimalPlaces") {
-				call, other = bo.Y, bo.X
-				op = flipCmp(op)
-			}
-			if call == nil {
-				continue
-			}
-			if prm, isP := other.(*ssa.Parameter); !isP || len(fn.Params) < 2 || prm != fn.Params[1] {
-				continue
-			}
-			pos = p.Pos(bo.Pos())
-			switch op {
-			case token.GTR: // places > max → must be the rejecting branch
-				ok = allSuccessDominatedBy(fn, bo, false)
-			case token.LEQ:
-				ok = allSuccessDominatedBy(fn, bo, true)
-			}
-		}
-	}
+	ok := len(fn.Params) >= 2 && placesGuarded(fn, fn.Params[1], 0)
 	c.Check(ok, "C19.M4", key, pos, fnName+": every success return lies behind NumDecimalPlaces() <= max")
 }
 
@@ -928,10 +906,11 @@ func ruleParse(c *Ctx, p *Program, byName map[string]*ssa.Function) {
 		}
 	}
 	var formCmps []string
+	var finiteTests []*ssa.BinOp // Form ==/!= apd.Finite
 	for _, b := range fn.Blocks {
 		for _, in := range b.Instrs {
 			bo, ok := in.(*ssa.BinOp)
-			if !ok || bo.Op != token.EQL {
+			if !ok || (bo.Op != token.EQL && bo.Op != token.NEQ) {
 				continue
 			}
 			var cst ssa.Value
@@ -949,11 +928,25 @@ func ruleParse(c *Ctx, p *Program, byName map[string]*ssa.Function) {
 			}
 			formCmps = append(formCmps, fmt.Sprint(v))
 			if v == 0 { // apd.Finite == 0
-				if allSuccessDominatedBy(fn, bo, true) {
-					finiteGuard = true
-				}
+				finiteTests = append(finiteTests, bo)
 			}
 		}
+	}
+	// on every path to a success return the atom "Form == Finite" has been decided true (by an == test
+	// taken, or a != test not taken — a switch case, an if chain, an early return are the same thing)
+	if len(finiteTests) > 0 {
+		finiteGuard, _ = everySuccessPath(fn, func(pf *pgPath, n *pgNamer, bp []*ssa.BasicBlock, ev ssa.Value) bool {
+			for _, bo := range finiteTests {
+				t, _ := n.literalOf(bo)
+				if bo.Op == token.NEQ {
+					// literalOf folds != into the negated == atom: the atom itself is what is recorded
+				}
+				if v, seen := pf.lits[t]; seen && v {
+					return true
+				}
+			}
+			return false
+		})
 	}
 	c.Check(parsesWithApd, "C19.M4", "NewDecFromString#parser", p.Pos(fn.Pos()), "string is parsed by apd.NewFromString")
 	c.Check(finiteGuard, "C19.M4", "NewDecFromString#finite-only", p.Pos(fn.Pos()), "every success return lies behind Form == apd.Finite (NaN, signalling NaN and Infinite are rejected); form comparisons seen: "+strings.Join(formCmps, ","))
@@ -1231,7 +1224,6 @@ func pos0(p *Program, fn *ssa.Function) bool {
 	return !pos.IsValid() || !isGeneratedFile(p.Fset.Position(pos).Filename)
 }
 
-
 // ---- M8: no machine-integer arithmetic feeds a decimal --------------------------------------------
 
 // ruleNoMachineArith: in types/math, the result of a Go-level integer +, -, *, << on two non-constant
@@ -1266,7 +1258,12 @@ func ruleNoMachineArith(c *Ctx, p *Program, fns []*ssa.Function) {
 				}
 				n++
 				key := fmt.Sprintf("%s#intarith@%d", fnKeyShort(fn), n)
-				if sink := reachesNumericSink(bo, map[ssa.Value]bool{}, 0); sink != "" {
+				if sink := reachesNumericSink(bo, map[ssa.Value]bool{}, 0); sink == "a branch condition" {
+					// hand-written arithmetic on digit counts / exponents that steers which result is returned:
+					// the shape summaries of this package assume results are computed by the library; a
+					// shortcut decided by such arithmetic is outside what they vouch for (fail-closed)
+					c.Undecide("C19.M8", key, p.Pos(bo.Pos()), "machine-integer "+bo.Op.String()+" on two variable operands decides a branch of "+mathFnName(fn)+": a hand-written numeric shortcut (digit counts, exponents) whose correctness no shape rule can vouch for")
+				} else if sink != "" {
 					c.Violate("C19.M8", key, p.Pos(bo.Pos()), "machine-integer "+bo.Op.String()+" on two variable operands flows into "+sink+": it wraps around silently where the decimal library would carry or report", nil)
 				} else {
 					c.Hold("C19.M8", key, p.Pos(bo.Pos()), "machine-integer "+bo.Op.String()+" does not reach a decimal, big.Int or sdk Int", nil)
@@ -1295,6 +1292,16 @@ func reachesNumericSink(v ssa.Value, seen map[ssa.Value]bool, depth int) string 
 				return s
 			}
 		case *ssa.BinOp:
+			switch y.Op {
+			case token.LSS, token.LEQ, token.GTR, token.GEQ, token.EQL, token.NEQ:
+				if y.Referrers() != nil {
+					for _, r2 := range *y.Referrers() {
+						if _, isIf := r2.(*ssa.If); isIf {
+							return "a branch condition"
+						}
+					}
+				}
+			}
 			if s := reachesNumericSink(y, seen, depth+1); s != "" {
 				return s
 			}
@@ -1315,7 +1322,6 @@ func reachesNumericSink(v ssa.Value, seen map[ssa.Value]bool, depth int) string 
 	}
 	return ""
 }
-
 
 // ruleM2Contexts: each arithmetic entry point of the contract table (only those named in `only`, when
 // given) performs its operation on the required context and no other context operation.
@@ -1392,12 +1398,157 @@ func ruleArith(c *Ctx, e *Env, rule string, keep func(ep *EntryPoint) bool) {
 	ruleNoMachineArith(tmp, p, usedFns)
 	n := 0
 	for _, o := range tmp.Obligs {
-		if o.Status == Violated || o.Status == Undecided {
+		switch o.Status {
+		case Violated:
 			n++
 			c.Violate(rule, o.Construct, o.Pos, o.Detail+" (a types/math function these handlers rely on)", nil)
+		case Undecided:
+			n++
+			c.Undecide(rule, o.Construct, o.Pos, o.Detail+" (a types/math function these handlers rely on)")
 		}
 	}
 	if n == 0 {
 		c.Check(len(usedFns) > 0 && len(roots) > 0, rule, "types/math#relied-upon", p.Pos(sp.Members["Dec"].Pos()), fmt.Sprintf("%d types/math functions reached from %d entry points: each operation on its required exact context, context literals trap inexact results, destinations fresh, no machine-integer arithmetic feeds a decimal (%d shape obligations)", len(usedFns), len(roots), len(tmp.Obligs)))
 	}
+}
+
+// everySuccessPath: holds(...) is true on every acyclic path of fn to a return whose error result is not
+// provably non-nil (ev is that error value, φ-resolved; nil when fn returns no error).
+func everySuccessPath(fn *ssa.Function, holds func(pf *pgPath, n *pgNamer, bp []*ssa.BasicBlock, ev ssa.Value) bool) (bool, string) {
+	paths, complete := enumPaths(fn, 4000)
+	if !complete {
+		return false, "too many paths"
+	}
+	idx := errResultIndex(fn.Signature)
+	nSucc := 0
+	for _, bp := range paths {
+		last := bp[len(bp)-1]
+		ret, isRet := last.Instrs[len(last.Instrs)-1].(*ssa.Return)
+		if !isRet {
+			continue
+		}
+		pf := pathFacts(fn, bp, nil)
+		if pf == nil {
+			continue
+		}
+		n := &pgNamer{fn: fn, ids: map[ssa.Value]string{}, phis: pf.phis}
+		var ev ssa.Value
+		if idx >= 0 && idx < len(ret.Results) {
+			ev = ret.Results[idx]
+			if ph, isPhi := ev.(*ssa.Phi); isPhi {
+				if e2, has := pf.phis[ph]; has {
+					ev = e2
+				}
+			}
+			if provablyNonNilErr(ev) {
+				continue
+			}
+			// `return …, err` under a decided `err != nil`
+			if v, seen := pf.lits["("+orderPair(n.term(ev, 0), "nil")+")"]; seen && !v {
+				continue
+			}
+		}
+		nSucc++
+		if !holds(pf, n, bp, ev) {
+			return false, fmt.Sprintf("the return at line %d can succeed without it", posLine(fn, ret))
+		}
+	}
+	return nSucc > 0, ""
+}
+
+// placesGuarded: every success return of fn lies behind "NumDecimalPlaces() <= max" for the parameter
+// max — tested in fn itself, or by a helper that receives max and returns a nil error only then.
+func placesGuarded(fn *ssa.Function, max *ssa.Parameter, depth int) bool {
+	if depth > 3 || len(fn.Blocks) == 0 {
+		return false
+	}
+	type test struct {
+		bo       *ssa.BinOp
+		wantTrue bool // the comparison must come out true (<=) / false (>)
+	}
+	var tests []test
+	for _, b := range fn.Blocks {
+		for _, in := range b.Instrs {
+			bo, isBin := in.(*ssa.BinOp)
+			if !isBin {
+				continue
+			}
+			op := bo.Op
+			var other ssa.Value
+			switch {
+			case isCallTo(bo.X, "Dec.NumDecimalPlaces"):
+				other = bo.Y
+			case isCallTo(bo.Y, "Dec.NumDecimalPlaces"):
+				other, op = bo.X, flipCmp(op)
+			default:
+				continue
+			}
+			if other != ssa.Value(max) {
+				continue
+			}
+			switch op {
+			case token.GTR:
+				tests = append(tests, test{bo, false})
+			case token.LEQ:
+				tests = append(tests, test{bo, true})
+			}
+		}
+	}
+	type helper struct {
+		call   *ssa.Call
+		errVal ssa.Value
+	}
+	var helpers []helper
+	for _, ci := range callsIn(fn) {
+		call, isCall := ci.(*ssa.Call)
+		if !isCall {
+			continue
+		}
+		sc := call.Call.StaticCallee()
+		if sc == nil || len(sc.Blocks) == 0 || !isRepoPkgPath(fnPkgPath(sc)) || errResultIndex(sc.Signature) < 0 {
+			continue
+		}
+		var sub *ssa.Parameter
+		for i, a := range call.Call.Args {
+			if a == ssa.Value(max) && i < len(sc.Params) {
+				sub = sc.Params[i]
+			}
+		}
+		if sub == nil || !placesGuarded(sc, sub, depth+1) {
+			continue
+		}
+		var errVal ssa.Value = call
+		if call.Call.Signature().Results().Len() > 1 {
+			errVal = nil
+			ei := errResultIndex(call.Call.Signature())
+			for _, r := range *call.Referrers() {
+				if ex, isEx := r.(*ssa.Extract); isEx && ex.Index == ei {
+					errVal = ex
+				}
+			}
+		}
+		if errVal != nil {
+			helpers = append(helpers, helper{call, errVal})
+		}
+	}
+	if len(tests)+len(helpers) == 0 {
+		return false
+	}
+	ok, _ := everySuccessPath(fn, func(pf *pgPath, n *pgNamer, bp []*ssa.BasicBlock, ev ssa.Value) bool {
+		for _, t := range tests {
+			if v, seen := pf.lits[n.term(t.bo, 0)]; seen && v == t.wantTrue {
+				return true
+			}
+		}
+		for _, h := range helpers {
+			if ev == h.errVal && onPath(bp, h.call.Block()) {
+				return true
+			}
+			if v, seen := pf.lits["("+orderPair(n.term(h.errVal, 0), "nil")+")"]; seen && v {
+				return true
+			}
+		}
+		return false
+	})
+	return ok
 }
